@@ -3,6 +3,7 @@
 package bag
 
 import (
+	"reflect"
 	"strings"
 
 	"github.com/ohler55/ojg/jp"
@@ -86,8 +87,55 @@ func setBag(s *slip.Scope, obj *flavors.Instance, value, path slip.Object, depth
 	if x == nil {
 		obj.Any = v
 	} else {
-		x.MustSet(obj.Any, v)
+		setAt(obj, x, v)
 	}
+}
+
+// setAt sets v at every location x matches. When x matches more than one
+// location and v is a map or a slice each location after the first gets a
+// copy of its own, otherwise a later change below one of the locations would
+// show up below all of them.
+func setAt(obj *flavors.Instance, x jp.Expr, v any) {
+	x.MustSet(obj.Any, v)
+	if x.Normal() {
+		return
+	}
+	switch v.(type) {
+	case map[string]any, []any:
+		shared := reflect.ValueOf(v).Pointer()
+		first := true
+		for _, loc := range x.Locate(obj.Any, 0) {
+			switch cur := loc.First(obj.Any).(type) {
+			case map[string]any, []any:
+				if reflect.ValueOf(cur).Pointer() == shared && reflect.TypeOf(cur) == reflect.TypeOf(v) {
+					if !first {
+						loc.MustSet(obj.Any, dupTree(v))
+					}
+					first = false
+				}
+			}
+		}
+	}
+}
+
+// dupTree copies the maps and slices of a bag value; the leaves are immutable
+// and are shared.
+func dupTree(v any) any {
+	switch tv := v.(type) {
+	case map[string]any:
+		m := make(map[string]any, len(tv))
+		for k, e := range tv {
+			m[k] = dupTree(e)
+		}
+		return m
+	case []any:
+		a := make([]any, len(tv))
+		for i, e := range tv {
+			a[i] = dupTree(e)
+		}
+		return a
+	}
+	return v
 }
 
 // ObjectToBag is the same as slip.Simplify except for assoc lists which are
